@@ -168,7 +168,7 @@ func c09One(c *Ctx, rng *lab.RNG, cs c09Case) {
 	r := c.R
 	r.Eval(1)
 	npop := len(cs.Costs)
-	cfg := lab.CacheCfg{NumCounters: 2000, MaxCost: cs.MaxCost, BufferItems: 1, IgnoreInternalCost: true, KeyKind: "uint64", NKeys: npop + 1, KeyZero: cs.KeyZero}
+	cfg := lab.CacheCfg{NumCounters: 2000, MaxCost: cs.MaxCost, BufferItems: 1, IgnoreInternalCost: true, KeyKind: "uint64", NKeys: npop + 2, KeyZero: cs.KeyZero}
 	l, err := lab.NewLab(cfg)
 	if err != nil {
 		r.Inconc(1)
@@ -209,15 +209,48 @@ func c09One(c *Ctx, rng *lab.RNG, cs c09Case) {
 		}
 		r.Obs("decisions_after_cost_lowering_overwrites", 1)
 	}
+	// In a quarter of the cases the monitored decision is not the first contested one on this cache: an extra hot key
+	// is admitted against the full population (one victim), removed again, the victim is put back, and one other
+	// resident is deleted for good. Whatever the policy kept from that earlier decision must not leak into this one.
+	expPop := npop
+	if cs.Stream%4 == 3 && npop >= 3 && cs.IncClass != "duplicate-pending" && cs.IncClass != "already-resident" {
+		x := npop + 1
+		l.C.Increment(l.Hashes[x][0], 10)
+		c0 := l.NumCallbacks()
+		cl.Set(x, cl.NextVal(x), cs.MaxCost-pre0Used(l)+1, 0)
+		cl.Wait()
+		var victims []int
+		for _, e := range l.CallbacksSince(c0) {
+			if e.Kind == lab.EvOnEvict {
+				victims = append(victims, lab.ValKey(e.Val))
+			}
+		}
+		cl.Del(x)
+		cl.Wait()
+		for _, k := range victims {
+			if k < npop {
+				nv := cl.NextVal(k)
+				cl.Set(k, nv, cs.Costs[k], 0)
+				cl.Wait()
+				vals[k] = nv
+			}
+		}
+		d := rng.Intn(npop)
+		cl.Del(d)
+		cl.Wait()
+		delete(vals, d)
+		expPop = npop - 1
+		r.Obs("decisions_after_an_earlier_contested_decision", 1)
+	}
 	n0 := l.NumCallbacks()
 	pre := l.C.Snapshot()
 	var accounted int64
 	for _, x := range pre.KeyCosts {
 		accounted += x
 	}
-	if len(pre.KeyCosts) != npop {
+	if len(pre.KeyCosts) != expPop {
 		// a fitting newcomer was not admitted: first clause of the statement
-		fail("fitting-newcomer-not-admitted", fmt.Sprintf("populating %d keys with total cost %d <= MaxCost %d left %d resident", npop, pre.Used, cs.MaxCost, len(pre.KeyCosts)), nil)
+		fail("fitting-newcomer-not-admitted", fmt.Sprintf("populating %d keys with total cost %d <= MaxCost %d left %d resident (expected %d)", npop, pre.Used, cs.MaxCost, len(pre.KeyCosts), expPop), nil)
 		return
 	}
 	// frequencies
@@ -423,7 +456,7 @@ func c09One(c *Ctx, rng *lab.RNG, cs c09Case) {
 				return
 			}
 		}
-		if npop == 1 {
+		if len(pre.KeyCosts) == 1 {
 			// one candidate: the outcome is fully determined
 			var only uint64
 			for h := range pre.KeyCosts {
@@ -516,3 +549,5 @@ func c09One(c *Ctx, rng *lab.RNG, cs c09Case) {
 	}
 	r.Sample(4, map[string]any{"case": cs.Name, "max_cost": cs.MaxCost, "incoming_cost": cs.IncCost, "outcome": outcome, "victims": len(evicted), "iterations": len(iters)})
 }
+
+func pre0Used(l *lab.Lab) int64 { return l.C.Snapshot().Used }
